@@ -250,6 +250,12 @@ func universes(thorough bool) []*universe {
 				p.Spec.AllocateTo = &metallbv1beta1.ServiceAllocation{Priority: 3, Namespaces: []string{"ns1"}}
 			}),
 		},
+		{ // a pinned pool that can give one family only, next to an unpinned pool that can give both
+			mkPool("gold-v4-prio1", []string{"10.1.0.0/31"}, func(p *metallbv1beta1.IPAddressPool) {
+				p.Spec.AllocateTo = &metallbv1beta1.ServiceAllocation{Priority: 1, Namespaces: []string{"ns1"}}
+			}),
+			mkPool("open-dual", []string{"10.3.0.0/32", "fc00:3::/128"}, nil),
+		},
 	}
 	dualVs := []namedVariant{
 		{"single4", mkSvc()},
@@ -272,6 +278,19 @@ func universes(thorough bool) []*universe {
 		dualSlotVs = nil
 	}
 	us = append(us, mkUniverse("dual", ns12[:1], dualLayouts, []slotT{{"ns1", "s1"}, {"ns1", "s2"}, {"ns1", "s3"}}, dualVs, dualSlotVs))
+
+	// a pool of both families that avoids the .0/.255 addresses, and explicit dual-stack requests naming such an address in
+	// either position
+	dreq := func(ips string) *v1.Service {
+		return mkSvc(families(v1.IPFamilyPolicyRequireDualStack, "192.168.9.1", "fd00::1"), annot(AnnotationLoadBalancerIPs, ips))
+	}
+	us = append(us, mkUniverse("buggydual", ns12[:1], [][]metallbv1beta1.IPAddressPool{
+		{mkPool("buggy-dual", []string{"10.0.3.0/30", "fc00:3::/126"}, func(p *metallbv1beta1.IPAddressPool) { p.Spec.AvoidBuggyIPs = true })},
+		{mkPool("buggy-dual", []string{"10.0.3.0/30", "fc00:3::/126"}, nil)},
+	}, []slotT{{"ns1", "s1"}, {"ns1", "s2"}}, []namedVariant{
+		{"require-ips-dot0-first", dreq("10.0.3.0,fc00:3::1")}, {"require-ips-dot0-second", dreq("fc00:3::1,10.0.3.0")}, {"require-ips-ok", dreq("10.0.3.1,fc00:3::2")},
+		{"single4-ip-dot0", mkSvc(lbIP("10.0.3.0"))}, {"require", mkSvc(families(v1.IPFamilyPolicyRequireDualStack, "192.168.9.1", "fd00::1"))},
+	}, nil))
 
 	// ---- U-reconf: pool reconfiguration ----
 	reLayouts := [][]metallbv1beta1.IPAddressPool{
@@ -347,5 +366,15 @@ func universes(thorough bool) []*universe {
 			{"p443-k1", mkSvc(ports(443), share("k1"))}}, nil))
 
 	us = append(us, mkUniverse("reconf", ns12, reLayouts, []slotT{{"ns1", "s1"}, {"ns1", "s2"}, {"ns2", "s3"}}, reVs, map[int][]int{2: {0, 2}}))
-	return us
+	// the small hand-made universes first: a time budget that runs out cuts the big graphs, never the aimed ones
+	big := map[string]bool{"share": true, "policy": true, "dual": true, "reconf": true}
+	var small, large []*universe
+	for _, u := range us {
+		if big[u.Name] {
+			large = append(large, u)
+		} else {
+			small = append(small, u)
+		}
+	}
+	return append(small, large...)
 }
